@@ -174,6 +174,59 @@ Section WithHash.
   Definition track (m : mon) (commitment_number ctxid : Z) (claims : list outpoint) (tx : stx) : list outpoint :=
     filter (fun op => negb (spends tx op)) claims ++ justice_htlc m commitment_number ctxid tx.
 
+  (** ** The block filter ([ChannelMonitorImpl::filter_block] / [spends_watched_output])
+
+      A transaction of a block is relevant iff one of its inputs spends a watched OUTPOINT
+      ([get_outputs_to_watch]: txid -> output indices), or ANY input (at any position) spends any
+      output of a transaction matched EARLIER IN THE SAME BLOCK ([matched_txn], by txid). Inputs
+      here are (prev txid, prev vout, number of witness elements). *)
+  Definition spends_watched (watched : list outpoint) (ins : list (Z * Z * Z)) : bool :=
+    existsb (fun inp : Z * Z * Z =>
+               existsb (fun w : outpoint => (fst w =? fst (fst inp)) && (snd w =? snd (fst inp))) watched) ins.
+
+  (** the [for input in tx.input.iter() { if matches { break; } if matched_txn.contains(..) { matches = true; } }] loop *)
+  Fixpoint child_loop (matched : list Z) (ins : list (Z * Z * Z)) (matches : bool) : bool :=
+    match ins with
+    | [] => matches
+    | inp :: tl =>
+        if matches then matches   (* break *)
+        else child_loop matched tl (existsb (fun t => t =? fst (fst inp)) matched)
+    end.
+
+  Fixpoint filter_block (watched : list outpoint) (matched : list Z) (txs : list stx) : list stx :=
+    match txs with
+    | [] => []
+    | tx :: tl =>
+        let m := child_loop matched (s_ins tx) (spends_watched watched (s_ins tx)) in
+        if m then tx :: filter_block watched (s_txid tx :: matched) tl
+        else filter_block watched matched tl
+    end.
+
+  (** ** One block, as [block_confirmed] sees it for a revoked commitment
+
+      [process_block]: the block is filtered first (with what is watched BEFORE the block); then
+      every relevant transaction is looked at in block order: the one spending the funding outpoint
+      is the (revoked) commitment [tx] -- its claims start being tracked --; any relevant
+      transaction then updates the tracked claims ([track]: spent outpoints dropped, second-stage
+      outputs of the inputs that spend the commitment with a 5-element witness added). *)
+  Definition spends_outpoint (op : outpoint) (ins : list (Z * Z * Z)) : bool :=
+    existsb (fun inp : Z * Z * Z => (fst (fst inp) =? fst op) && (snd (fst inp) =? snd op)) ins.
+
+  Fixpoint scan (m : mon) (funding : outpoint) (tx : ctx) (seen : bool) (claims : list outpoint)
+           (relevant : list stx) : bool * list outpoint :=
+    match relevant with
+    | [] => (seen, claims)
+    | t :: tl =>
+        if negb seen && spends_outpoint funding (s_ins t) && (s_txid t =? t_txid tx)
+        then scan m funding tx true (justice m tx) tl
+        else if seen then scan m funding tx seen (track m (t_number tx) (t_txid tx) claims t) tl
+        else scan m funding tx seen claims tl
+    end.
+
+  Definition process_block (m : mon) (watched : list outpoint) (funding : outpoint) (tx : ctx)
+             (seen : bool) (claims : list outpoint) (block : list stx) : bool * list outpoint :=
+    scan m funding tx seen claims (filter_block watched [] block).
+
   (** ** The history a channel produces
 
       [commit j] is the counterparty commitment with number [2^48 - 1 - j]; the channel tells the
